@@ -95,6 +95,7 @@ func checkC15(c *Ctx) {
 	unitRuleMin(c, "C15.R3", 3, func(f *ssa.Function) bool { return strings.Contains(f.String(), "TextForAttribute") })
 	// ----- R4, R5
 	c15TrimAndClamp(c)
+	c15ResultAliasing(c)
 }
 
 // ---------- R1 ----------
